@@ -21,6 +21,10 @@ class NotDifferentiable(Exception):
     pass
 
 
+# helper functions returning (value, log-Jacobian) whose contract is verified on its own
+HELPER_CALLS = {"call:aspire.utils:logit", "call:aspire.utils:sigmoid"}
+
+
 def depends(t, x) -> bool:
     return any(s == x for s in T.subterms(t))
 
@@ -50,6 +54,10 @@ def diff(t, x):
                         term = T._mul_by_unit(term, b2, ee)
                 total = T.add(total, term)
         return total
+    if k == "s" and T.const_value(t[2]) == 0 and t[1][0] == "f" and t[1][1] in HELPER_CALLS and t[1][2]:
+        # first result of a verified element-wise helper pair (contract: its second
+        # result is the column sum of log|d first / d argument|)
+        return T.mul(("f", "dhelper", (t[1],), ()), diff(t[1][2][0], x))
     if k == "f":
         name, args = t[1], t[2]
         if not args:
@@ -86,6 +94,10 @@ def logabs(R):
         return T.phi(R[1], logabs(R[2]), logabs(R[3]))
     if not T.is_poly(R):
         return _la_base(R)
+    if len(R[1]) > 1:
+        R2 = T.expand_poly_bases(R)
+        if R2 != R:
+            return logabs(R2)
     items = [(m, c) for m, c in R[1]]
     if not items:
         raise NotDifferentiable("log of zero")
@@ -159,6 +171,8 @@ def _la_base(b):
             return T.mul(T.const(Fraction(1, 2)), logabs(b[2][0]))
         if b[1] == "abs" and len(b[2]) == 1:
             return logabs(b[2][0])
+        if b[1] == "dhelper":
+            return ("f", "lahelper", b[2], ())
     if b[0] == "phi":
         return T.phi(b[1], logabs(b[2]), logabs(b[3]))
     return LA(b)
@@ -173,7 +187,12 @@ def colsum(t, x):
         if m == ():
             piece = ("f", "colsum", (T.ONE,), ())
         else:
-            piece = ("f", "colsum", (T._mk({m: 1}),), ())
+            inner = T._mk({m: 1})
+            if inner[0] == "f" and inner[1] == "lahelper":
+                # contract of a verified helper: its reported log-Jacobian *is* this column sum
+                piece = ("s", inner[2][0], T.const(1))
+            else:
+                piece = ("f", "colsum", (inner,), ())
         total = T.add(total, T.mul(T.const(c), piece))
     return total
 
